@@ -8,6 +8,7 @@ invocation with `--features broker-introspection`; driver extract/introdb_driver
 import json
 import os
 import shutil
+import time
 
 from checks import brokerfam
 from vlib import broker, core
@@ -127,7 +128,9 @@ def introdb(o, tier, seed):
                          f" && grep -m 60 -E '^(EV|OUT|CLOSED) ' {d}/trace.txt > {d}/sample.txt"
                          f" ; if grep -q -E '^(DIVERGE|ABANDONED)' {d}/verdict.txt; then :; else rm -f {d}/trace.txt; fi")
         cmds.append(" && ".join(f"( {p} )" for p in parts))
+    t0 = time.time()
     res = core.parallel(cmds, timeout=3000)
+    run_seconds = round(time.time() - t0, 1)
     for (rc, out), i in zip(res, range(shards)):
         if rc != 0:
             o.obligation_broken(f"introdb harness/driver run of shard {i} (exit {rc})", out)
@@ -186,6 +189,7 @@ def introdb(o, tier, seed):
         "monitor_verdicts": tot.get("monitor_verdicts", 0),
         "message_kinds_in_and_out": kinds,
         "provider_choice_search": summ,
+        "generate_and_compare_wall_seconds": run_seconds,
         "broker_bin_keeps_introspection_feature_off": feat,
         "monitors": "broker task never panics; every query of a live connection answered exactly once after all "
                     "providers answered (except the documented self-Unavailable case); no message after Shutdown; no "
